@@ -852,6 +852,24 @@ func (c *Ctx) specCall(x *SCall) *Val {
 				conj = append(conj, Forall(e.qvars, Implies(e.guard, Or(alts...))))
 			}
 			return Scalar(And(conj...), bt)
+		case "sameobject":
+			// every field of the object (of its dynamic type) has its pre-state value
+			v := c.evalSpec(x.Args[0])
+			var conj []Term
+			for _, e := range c.footprintEntries(v, nil, True, name) {
+				if e.id.S != v.T.S {
+					continue // only the object itself, not the arrays it owns
+				}
+				for _, h := range e.heaps {
+					cur := c.heapArr(h.name, h.sort)
+					old := c.heapArrIn(c.Fr.OldHeap, h.name, h.sort)
+					if cur.S == old.S {
+						continue
+					}
+					conj = append(conj, Implies(e.guard, StructEq(Select(cur, v.T), Select(old, v.T))))
+				}
+			}
+			return Scalar(And(conj...), bt)
 		case "disjoint":
 			a, b := c.evalSpec(x.Args[0]), c.evalSpec(x.Args[1])
 			ea := c.footprintEntries(a, nil, True, name)
